@@ -54,7 +54,7 @@ theorem no_double_store {s : State} (h : Inv s) (k : Nat) : (step s (.fstore k))
   · rename_i f hf
     split
     · rename_i hph
-      have hnone := h.missNone k f hf (Or.inr hph)
+      have hnone := h.missNone k f hf (Or.inr (Or.inr hph))
       rw [hnone]
       simp
     · simp
@@ -137,6 +137,32 @@ theorem held_step {s : State} (h : Inv s) {t k r : Nat} (ht : s.tasks[t]? = some
         · split
           · exact ⟨ht, by simp only [setPhase]; exact upd_other _ _ _ _ hkk⟩
           · exact ⟨ht, by simp only [setPhase]; exact upd_other _ _ _ _ hkk⟩
+      · exact ⟨ht, by first | rfl | trivial⟩
+    · exact ⟨ht, by first | rfl | trivial⟩
+  | freq k' =>
+    simp only [step, stepG]
+    split
+    · rename_i f hf
+      split
+      · rename_i hph
+        have hkk : k ≠ k' := by
+          intro he
+          subst he
+          have := h.missNone k f hf (Or.inl hph)
+          rw [harena] at this
+          cases this
+        split
+        · exact ⟨ht, by first | rfl | trivial⟩
+        · exact ⟨ht, by simp only [setPhase]; exact upd_other _ _ _ _ hkk⟩
+      · exact ⟨ht, by first | rfl | trivial⟩
+    · exact ⟨ht, by first | rfl | trivial⟩
+  | fbody k' srvOk =>
+    simp only [step, stepG]
+    split
+    · split
+      · split
+        · exact ⟨ht, by first | rfl | trivial⟩
+        · split <;> exact ⟨ht, by first | rfl | trivial⟩
       · exact ⟨ht, by first | rfl | trivial⟩
     · exact ⟨ht, by first | rfl | trivial⟩
   | fstore k' =>
@@ -360,6 +386,48 @@ theorem leaderWaits_step {s : State} (h : LeaderWaits s) (op : Op) (hop : ∀ t,
       · split
         · exact key _ s.hits
         · split <;> exact key _ _
+      · exact h
+    · exact h
+  | freq k' =>
+    simp only [step, stepG]
+    split
+    · rename_i f0 hf0
+      have key : ∀ ph hits', LeaderWaits { setPhase s k' f0 ph with hits := hits' } := by
+        intro ph hits'
+        refine ⟨?_, h.noOrphan⟩
+        intro k f hf
+        by_cases hk : k = k'
+        · subst hk
+          simp only [setPhase, upd_same, Option.some.injEq] at hf
+          subst hf
+          exact h.leader k f0 hf0
+        · simp only [setPhase, upd_other _ _ _ _ hk] at hf
+          exact h.leader k f hf
+      split
+      · split
+        · exact key _ s.hits
+        · exact key _ _
+      · exact h
+    · exact h
+  | fbody k' srvOk =>
+    simp only [step, stepG]
+    split
+    · rename_i f0 hf0
+      have key : ∀ ph, LeaderWaits (setPhase s k' f0 ph) := by
+        intro ph
+        refine ⟨?_, h.noOrphan⟩
+        intro k f hf
+        by_cases hk : k = k'
+        · subst hk
+          simp only [setPhase, upd_same, Option.some.injEq] at hf
+          subst hf
+          exact h.leader k f0 hf0
+        · simp only [setPhase, upd_other _ _ _ _ hk] at hf
+          exact h.leader k f hf
+      split
+      · split
+        · exact key _
+        · split <;> exact key _
       · exact h
     · exact h
   | fstore k' =>
